@@ -20,6 +20,9 @@ def main():
         if a.prop in props.SIM:
             from checks.simcheck import run_check
             rc = run_check(a.prop, props.SIM[a.prop], tier, seed, replay=a.replay)
+        elif a.prop == "C17":
+            from checks.laddercheck import run_check
+            rc = run_check(tier, seed)
         elif a.prop == "C16":
             from checks.expcheck import run_check
             rc = run_check(tier, seed)
